@@ -1492,7 +1492,7 @@ def model_requests(case, obs):
         edits = _edits_of(case, obs)
         if len(edits) == 1 and edits[0]["op"] == "scale":
             # Lean's own `scaleLine k` on the original lines (the edit of `numbered_lines_scale_partial`)
-            reqs.append({"m": "C13.numbered", "lines": obs["raw"], "k": edits[0]["k"]})
+            reqs.append({"m": "C13.numbered", "text": "\n".join(obs["raw"]), "k": edits[0]["k"]})  # Lean's `scaleContent` on the content
         return reqs
     if k in ("err", "fmt"):
         reqs = _errwrap_requests(k, obs)
